@@ -13,6 +13,7 @@ import (
 	"time"
 
 	"rcproxy/core"
+	"rcproxy/core/authip"
 )
 
 // Worker owns one proxy instance, its fake cluster and the scripted clients.
@@ -35,6 +36,16 @@ func NewWorker(cfg *Config, tracePath string) (*Worker, error) {
 	cl, err := NewCluster(cfg, log)
 	if err != nil {
 		return nil, err
+	}
+	if cfg.AuthIPDir == "auto" {
+		dir, err := os.MkdirTemp("", "rcproxy-verif-authip")
+		if err != nil {
+			return nil, err
+		}
+		cfg.AuthIPDir = dir
+		if err := os.WriteFile(dir+"/authip.yaml", []byte("enable: false\nip_white_list: []\n"), 0644); err != nil {
+			return nil, err
+		}
 	}
 	h, err := StartProxy(cfg, cl.Seeds())
 	if err != nil {
@@ -455,6 +466,8 @@ func (w *Worker) apply(st *Stim) {
 	case "refresh":
 		// one probe round: tick (probe), reply, refresher, tick (rebuild); then publish the proxy's routing table
 		w.refresh()
+	case "authfile":
+		w.authFile(st)
 	case "pause":
 		if c, ok := w.Clients[st.C]; ok {
 			c.Paused = true
@@ -475,6 +488,58 @@ func (w *Worker) apply(st *Stim) {
 		w.Log.Add(Event{Ev: "skip", Txt: "unknown op " + st.Op})
 		w.Unreal++
 	}
+}
+
+// authFile rewrites the whitelist file (in place, or by renaming a new file over it), waits until the live
+// whitelist has settled (bounded) and records which addresses of the universe the proxy admits.
+func (w *Worker) authFile(st *Stim) {
+	var sb strings.Builder
+	enable := st.Count == 1
+	fmt.Fprintf(&sb, "enable: %v\nip_white_list:\n", enable)
+	for _, ip := range st.Reqs[0].Args {
+		fmt.Fprintf(&sb, "  - %s\n", ip)
+	}
+	if len(st.Reqs[0].Args) == 0 {
+		sb.Reset()
+		fmt.Fprintf(&sb, "enable: %v\nip_white_list: []\n", enable)
+	}
+	path := w.Cfg.AuthIPDir + "/authip.yaml"
+	if st.Kind == "rename" {
+		tmp := w.Cfg.AuthIPDir + "/.authip.yaml.tmp"
+		_ = os.WriteFile(tmp, []byte(sb.String()), 0644)
+		_ = os.Rename(tmp, path)
+	} else {
+		_ = os.WriteFile(path, []byte(sb.String()), 0644)
+	}
+	w.Log.Add(Event{Ev: "authfile", Kind: st.Kind, Num: st.Count, Slots: st.Reqs[0].Args})
+	universe := st.Reqs[0].Slots
+	want := map[string]bool{}
+	for _, ip := range universe {
+		want[ip] = !enable
+	}
+	for _, ip := range st.Reqs[0].Args {
+		want[ip] = true
+	}
+	t0 := time.Now()
+	var admitted []string
+	for {
+		admitted = admitted[:0]
+		same := true
+		for _, ip := range universe {
+			ok := authip.IpMap.Validate(ip)
+			if ok {
+				admitted = append(admitted, ip)
+			}
+			if ok != want[ip] {
+				same = false
+			}
+		}
+		if same || time.Since(t0) > 3*time.Second {
+			break
+		}
+		time.Sleep(5 * time.Millisecond)
+	}
+	w.Log.Add(Event{Ev: "authsettled", Slots: admitted, Num: int(time.Since(t0) / time.Millisecond)})
 }
 
 func (w *Worker) refresh() {
